@@ -120,22 +120,6 @@ def intLe : Scalar → Scalar → Bool
 
 def intGe (x y : Scalar) : Bool := intLe y x
 
-theorem gt_int (i j : Int) : searchMatchesScalar noRx .gt (.int i) (.int j) = .ok (!decide (i ≤ j)) := by
-  have : (compare i j == Ordering.gt) = !decide (i ≤ j) := by
-    rw [Bool.eq_iff_iff]; simp [Int.compare_eq_gt]
-  simp [searchMatchesScalar, searchTyped, typedOfScalar, orderLadder, Typed.ordNum?, decCmp, this]
-
-theorem lt_int (i j : Int) : searchMatchesScalar noRx .lt (.int i) (.int j) = .ok (!decide (j ≤ i)) := by
-  have : (compare i j == Ordering.lt) = !decide (j ≤ i) := by
-    rw [Bool.eq_iff_iff]; simp [Int.compare_eq_lt]
-  simp [searchMatchesScalar, searchTyped, typedOfScalar, orderLadder, Typed.ordNum?, decCmp, this]
-
-theorem eq_int (i j : Int) :
-    searchMatchesScalar noRx .equals (.int i) (.int j) = .ok (decide (i ≤ j) && decide (j ≤ i)) := by
-  have : (i == j) = (decide (i ≤ j) && decide (j ≤ i)) := by
-    rw [Bool.eq_iff_iff]; simp; omega
-  simp [searchMatchesScalar, searchTyped, typedOfScalar, this]
-
 /-- Lists of ints meet the hypothesis of `max_eq_spec` with the usual order. -/
 theorem scanOrder_ints_max (vals : List Scalar) (h : ∀ v ∈ vals, ∃ i, v = .int i) :
     ScanOrder .gt intLe vals := by
